@@ -66,3 +66,14 @@ class D2Sub(HasTraits):
     q = DelegatesTo("par", "b")
     q2 = DelegatesTo("par", "a")
     q3 = DelegatesTo("par", "c")
+
+
+class Holder(HasTraits):
+    par = Instance(P)
+
+
+class DLink(D):
+    """the delegate link is itself a deferred attribute: par = DelegatesTo("holder") (its value is not in the object's
+    __dict__; reading, swapping and listening go through the holder)"""
+    holder = Instance(Holder, ())
+    par = DelegatesTo("holder")
